@@ -30,6 +30,8 @@ var (
 	flagVerbose  = flag.Bool("v", false, "print every obligation")
 	flagJSON     = flag.Bool("json", false, "with -rules: print obligations as JSON")
 	flagManifest = flag.Bool("manifest", false, "print MANIFEST.json generated from the property table")
+	flagKnownFn  = flag.Bool("knownfuncs", false, "print the reference function table (knownfuncs.go) for the tree at -repo")
+	flagView     = flag.String("view", "", "debug: write the helper-inlined view of -repo to this directory and stop")
 )
 
 var ruleTable = map[string]*Rule{}
@@ -61,6 +63,23 @@ func main() {
 	switch {
 	case *flagManifest:
 		printManifest()
+	case *flagKnownFn:
+		if err := printKnownFuncs(*flagRepo); err != nil {
+			fmt.Fprintln(os.Stderr, err)
+			os.Exit(2)
+		}
+	case *flagView != "":
+		dir, names, err := normalizedView(*flagRepo)
+		if err != nil {
+			fmt.Fprintln(os.Stderr, err)
+			os.Exit(2)
+		}
+		fmt.Println("inlined:", names)
+		os.RemoveAll(*flagView)
+		if err := os.Rename(dir, *flagView); err != nil {
+			fmt.Fprintln(os.Stderr, err, "(view left in", dir+")")
+			os.Exit(2)
+		}
 	case *flagList:
 		listRules()
 	case *flagDump != "":
@@ -182,6 +201,7 @@ func debugRules() int {
 		fmt.Printf("%s: %d obligations\n", id, len(obs))
 	}
 	if *flagJSON {
+		twoViewProps(all)
 		b, _ := json.Marshal(all)
 		fmt.Println(string(b))
 		for _, o := range all {
@@ -194,6 +214,80 @@ func debugRules() int {
 		return 1
 	}
 	return 0
+}
+
+// twoViewProps fills Oblig.Props for the open obligations: the properties whose check would report them, i.e.
+// those whose rules are not all discharged on the helper-inlined view either (what runProperty does per property).
+func twoViewProps(all []*Oblig) {
+	known, _ := loadKnown(filepath.Join(verifRoot(), "known-findings.json"))
+	isKnown := func(o *Oblig) bool {
+		for _, k := range known {
+			if k.Status == "known" && k.Key == o.Key {
+				return true
+			}
+		}
+		return false
+	}
+	rulesRun := map[string]bool{}
+	open := false
+	for _, o := range all {
+		rulesRun[o.Rule] = true
+		if o.Status != Discharged && !isKnown(o) {
+			open = true
+		}
+	}
+	propsOf := func(rule string) []string {
+		var out []string
+		for id, pr := range properties {
+			for _, r := range pr.Rules {
+				if r == rule {
+					out = append(out, id)
+				}
+			}
+		}
+		sort.Strings(out)
+		return out
+	}
+	cleanOnB := map[string]bool{}
+	if open && os.Getenv("BVCHECK_NO_INLINE") == "" {
+		if dirB, inlined, err := normalizedView(*flagRepo); err == nil && len(inlined) > 0 {
+			if pB, err := Load(dirB, *flagArch); err == nil {
+				badRule := map[string]bool{}
+				for r := range rulesRun {
+					obs, _ := runRule(pB, ruleTable[r], pB.Arch)
+					for _, o := range obs {
+						if o.Status != Discharged && !isKnown(o) {
+							badRule[r] = true
+						}
+					}
+				}
+				for id, pr := range properties {
+					ok := true
+					for _, r := range pr.Rules {
+						if !rulesRun[r] || badRule[r] {
+							ok = false
+						}
+					}
+					cleanOnB[id] = ok
+				}
+			}
+			os.RemoveAll(dirB)
+		} else if dirB != "" {
+			os.RemoveAll(dirB)
+		}
+	}
+	for _, o := range all {
+		if o.Status == Discharged {
+			continue
+		}
+		o.Props = []string{}
+		o.TwoView = true
+		for _, id := range propsOf(o.Rule) {
+			if !cleanOnB[id] {
+				o.Props = append(o.Props, id)
+			}
+		}
+	}
 }
 
 type replayArtefact struct {
@@ -238,6 +332,16 @@ func replay(path string) int {
 	return 0
 }
 
+func countUnlisted(known []KnownFinding, id string, obs []*Oblig) int {
+	n := 0
+	for _, o := range obs {
+		if o.Status != Discharged && matchKnown(known, id, o) == nil {
+			n++
+		}
+	}
+	return n
+}
+
 func runProperty(id, tier string) int {
 	start := time.Now()
 	prop := properties[id]
@@ -269,63 +373,93 @@ func runProperty(id, tier string) int {
 	funcs, cgNodes, cgEdges := 0, 0, 0
 	var pkgNames []string
 	configs := []string{}
-	for ai, arch := range archs {
-		p, err := Load(*flagRepo, arch)
-		if err != nil {
-			loadErr = err
-			break
-		}
-		cfgName := arch
-		if cfgName == "" {
-			cfgName = "host"
-		}
-		configs = append(configs, "linux/"+cfgName+" tags=verif")
-		if ai == 0 {
-			funcs = len(p.Funcs)
-			for sn, pk := range p.Pkgs {
-				pkgNames = append(pkgNames, fmt.Sprintf("%s (%d files)", sn, len(pk.CompiledGoFiles)))
+	evalOn := func(repo string) {
+		all, notes, summaries, loadErr = nil, nil, nil, nil
+		pkgNames, configs = nil, []string{}
+		for ai, arch := range archs {
+			p, err := Load(repo, arch)
+			if err != nil {
+				loadErr = err
+				break
 			}
-			sort.Strings(pkgNames)
-		}
-		for _, rid := range prop.Rules {
-			rl := ruleTable[rid]
-			if rl == nil {
-				all = append(all, &Oblig{Rule: rid, Key: rid + "/missing", Status: Undecided, Why: "rule not implemented"})
-				continue
+			cfgName := arch
+			if cfgName == "" {
+				cfgName = "host"
 			}
-			obs, ns := runRule(p, rl, cfgName)
-			if ai > 0 {
-				// second configuration: keep only obligations that differ from the first (by key+status)
-				have := map[string]Status{}
-				for _, o := range all {
-					have[o.Key] = o.Status
+			configs = append(configs, "linux/"+cfgName+" tags=verif")
+			if ai == 0 {
+				funcs = len(p.Funcs)
+				for sn, pk := range p.Pkgs {
+					pkgNames = append(pkgNames, fmt.Sprintf("%s (%d files)", sn, len(pk.CompiledGoFiles)))
 				}
+				sort.Strings(pkgNames)
+			}
+			for _, rid := range prop.Rules {
+				rl := ruleTable[rid]
+				if rl == nil {
+					all = append(all, &Oblig{Rule: rid, Key: rid + "/missing", Status: Undecided, Why: "rule not implemented"})
+					continue
+				}
+				obs, ns := runRule(p, rl, cfgName)
+				if ai > 0 {
+					// second configuration: keep only obligations that differ from the first (by key+status)
+					have := map[string]Status{}
+					for _, o := range all {
+						have[o.Key] = o.Status
+					}
+					for _, o := range obs {
+						if st, ok := have[o.Key]; !ok || st != o.Status {
+							o.Key = o.Key + "@" + cfgName
+							all = append(all, o)
+						}
+					}
+					continue
+				}
+				all = append(all, obs...)
+				for _, n := range ns {
+					notes = append(notes, rid+": "+n)
+				}
+				s := ruleSummary{ID: rid, Doc: rl.Doc, Instances: len(obs), Min: rl.Min}
 				for _, o := range obs {
-					if st, ok := have[o.Key]; !ok || st != o.Status {
-						o.Key = o.Key + "@" + cfgName
-						all = append(all, o)
+					switch o.Status {
+					case Violated:
+						s.Violated++
+					case Undecided:
+						s.Undecided++
 					}
 				}
-				continue
+				summaries = append(summaries, s)
 			}
-			all = append(all, obs...)
-			for _, n := range ns {
-				notes = append(notes, rid+": "+n)
+			if ai == 0 {
+				cg := p.CG()
+				cgNodes, cgEdges = cg.nodes, cg.edges
 			}
-			s := ruleSummary{ID: rid, Doc: rl.Doc, Instances: len(obs), Min: rl.Min}
-			for _, o := range obs {
-				switch o.Status {
-				case Violated:
-					s.Violated++
-				case Undecided:
-					s.Undecided++
-				}
-			}
-			summaries = append(summaries, s)
 		}
-		if ai == 0 {
-			cg := p.CG()
-			cgNodes, cgEdges = cg.nodes, cg.edges
+	}
+	evalOn(*flagRepo)
+	// Second view. Obligations left open on the tree as written may only be open because code was moved into
+	// helper functions the rules do not follow. Inlining those helpers back preserves behaviour, so a tree whose
+	// helper-inlined view discharges every obligation satisfies the same clauses.
+	view := "as written"
+	if loadErr == nil && countUnlisted(known, id, all) > 0 && os.Getenv("BVCHECK_NO_INLINE") == "" {
+		if dirB, inlined, err := normalizedView(*flagRepo); err == nil && len(inlined) > 0 {
+			allA, notesA, sumA, pkA, cfA := all, notes, summaries, pkgNames, configs
+			fA, nA, eA := funcs, cgNodes, cgEdges
+			evalOn(dirB)
+			if loadErr == nil && countUnlisted(known, id, all) == 0 {
+				view = "helper-inlined"
+				for _, o := range all {
+					o.Pos = "inlined-view:" + o.Pos
+				}
+				notes = append(notes, fmt.Sprintf("view: %d obligation(s) open on the tree as written; all discharged after inlining the helper functions %s (source-level inlining with a copy of golang.org/x/tools/internal/refactor/inline v0.29.0; positions refer to the inlined source)", countUnlisted(known, id, allA), strings.Join(inlined, ", ")))
+				fmt.Printf("note: %s holds on the helper-inlined view of the tree (inlined: %s)\n", id, strings.Join(inlined, ", "))
+			} else {
+				all, notes, summaries, pkgNames, configs, loadErr = allA, notesA, sumA, pkA, cfA, nil
+				funcs, cgNodes, cgEdges = fA, nA, eA
+			}
+			os.RemoveAll(dirB)
+		} else if dirB != "" {
+			os.RemoveAll(dirB)
 		}
 	}
 	sortObligs(all)
@@ -405,6 +539,7 @@ func runProperty(id, tier string) int {
 			"decides":             prop.Decides,
 			"does_not_decide":     prop.NotDecided,
 			"notes":               notes,
+			"view":                view,
 			"known_findings_file": filepath.Join(root, "known-findings.json"),
 		},
 		Assumptions: trustedBase,
